@@ -101,6 +101,12 @@ Theorem dl_cancel_reaches_called_but_undelivered_inputs : forall f1 f2 ce s i,
 Proof. intros f1 f2 ce s i _ H. exact (proj1 (cancel_input_log f1 f2 ce s i) H). Qed.
 Print Assumptions dl_cancel_reaches_called_but_undelivered_inputs.
 
+(** the aggregate does not depend on what the caller does afterwards with the list object it passed: it works on its
+    own copy (DeferredList._deferredList, race's to_cancel), so a mutation of the argument is not a step of the aggregate *)
+Theorem aggregate_independent_of_argument_mutation : forall k s, step k s MutateArg = s.
+Proof. reflexivity. Qed.
+Print Assumptions aggregate_independent_of_argument_mutation.
+
 (** ---- race ---- *)
 
 (** the result Deferred of race fires at most once; neither of the two unguarded firings in the code
